@@ -97,6 +97,12 @@ def gen(rng, tier, quarantine=()):
             op["tape"] = gen_tape(rng, rng.randint(0, 16), odd=0.3)
             op["faults"] = {}
             ops.append(op)
+    if "no-refused-activation" not in quarantine and rng.random() < 0.25:
+        # another probe on the same function is refused while the overrides are live:
+        # the refusal must not disturb them
+        bad = {"levels": [{"fn": qual, "caps": [], "sibs": []}], "focus": {"var": "nosuchvar", "as": "nosuchvar"}}
+        ops.append({"op": "mk", "id": "bad", "kind": "probe", "sels": [bad], "nojudge": True, "expect_refusal": True})
+        ops.append({"op": "enter", "id": "bad"})
     tl = 24 if tier == "quick" else 48
     for c in range(rng.randint(1, 3)):
         op = call_shape(rng, qual, fnir, "k1")
